@@ -12,7 +12,7 @@ def run(ctx: vlib.Ctx):
     ctx.coverage["rule"] = ("schemas from the shared grammar generator x inputs = encoder output of conforming values plus a foreign stream "
                             "(one position of a valid wire value replaced by a wrong JSON type / removed / null / extra key / surplus item, or pure junk); "
                             "distinct = (type tree, input) pairs; non-trivial = input is not the unmodified encoder output")
-    ctx.theorems("props/C03_unpack.vo", ["C03_unpack_ref", "C03_field_unpacker"])
+    ctx.theorems("props/C03_unpack.vo", ["C03_unpack_ref", "C03_field_unpacker", "C03_well_typed"])
     ctx.trusted += ["TyModel.v (cu/uk: hand-written model of unpack.py registry order incl. iteration of str/dict inputs, tuple surplus, field lookup) "
                     "tied by vm_compute correspondence; stdlib constructors (int/float/str, fromisoformat, UUID, Decimal, ..., decodebytes, Enum()) are oracle tables"]
     ctx.assumptions += ["conformance of results (exact classes) and NamedTuple/TypedDict/abstract collections are decided by the oracle only"]
